@@ -169,6 +169,7 @@ pub struct Cfg {
     pub round32: fn(u64, i32, bool) -> (u64, i32),
     pub round64: fn(u64, i32, bool) -> (u64, i32),
     pub masks: fn(u32, u64) -> u64,
+    pub hi64_helper: fn(u32, u64, u64, u64) -> (u64, bool),
     pub helpers32: fn(u64) -> Helpers,
     pub helpers64: fn(u64) -> Helpers,
     pub consts32: fn() -> FloatConsts,
